@@ -128,6 +128,11 @@ def _callee(node):
     name = ast.unparse(node.func)
     if name.startswith('self.'):
         name = name[5:]
+    # what is passed to a context manager's __exit__ decides commit vs rollback: keep it
+    if name.endswith('.__exit__') or name == 'finish_transaction':
+        args = [ast.unparse(a) for a in node.args] + ['%s=%s' % (k.arg, ast.unparse(k.value)) for k in node.keywords]
+        if name.endswith('.__exit__') or args:
+            name = '%s(%s)' % (name, ', '.join(args))
     return name
 
 
